@@ -62,7 +62,7 @@ mp_limb_t mpn_nsumdiff_n(mp_ptr s, mp_ptr d, mp_srcptr x, mp_srcptr y, mp_size_t
    }
 
    ret = 2*mpn_add_n(s, x, y, n);
-   ret = 2*mpn_neg_n(s, s, n);
+   ret += 2*mpn_neg_n(s, s, n);
    ret += mpn_sub_n(d, x, y, n);
 
    return ret;
